@@ -376,7 +376,7 @@ def statement_fails(line, ir):
         co = sorted(repr(proto.canon(_plain(proto.parse(enc(x))))) for x in out)
         if cx != co:
             return 'sort result is not a permutation of the input'
-        # every pair, not only neighbours: with an intransitive cmp (NaT before fix 72de39d) neighbours alone look ordered
+        # every pair, not only neighbours: with an intransitive cmp (NaT before fix cceb13a) neighbours alone look ordered
         if any(pyg_base.cmp(out[i], out[j]) == 1 for i in range(len(out)) for j in range(i + 1, len(out))):
             return 'sort result is not non-decreasing under cmp'
         return None
